@@ -559,6 +559,21 @@ func genMatch(rt *rapid.T, call string) string {
 			}
 			continue
 		}
+		if f.Dev != nil && rapid.IntRange(0, 3).Draw(rt, "full-name") == 0 {
+			// a device name that fills all 30 octets of its field (no terminator fits): the response is one if the
+			// same response with the name cut to 29 characters is
+			b0, _ := common.RefEncode(f)
+			name := append([]byte{}, f.Dev.Name...)
+			for len(name) < 30 {
+				name = append(name, byte(rapid.IntRange(0x21, 0xff).Draw(rt, "name-octet")))
+			}
+			f.Dev.Name = name
+			b, _ := common.RefEncode(f)
+			if _, err := decodeWithin(b0, 3*time.Second); err == nil && len(b) <= 1024 {
+				return hex.EncodeToString(b)
+			}
+			continue
+		}
 		b, _ := common.RefEncode(f)
 		// a response the decoder spins on is kept: the call has to cope with it (and is watched)
 		if _, err := decodeWithin(b, 3*time.Second); (err == nil || strings.Contains(err.Error(), "did not return")) && len(b) <= 1024 {
